@@ -56,11 +56,16 @@ CHECKS['C02'] = {
 }
 CHECKS['C03'] = {
     'level': 'other',
-    'technique': 'hybrid: deductive proof of best_hyp/total_scores contracts (z3) + bounded run-time contract of the decoder with a prefix-hash toy LM over a finite grid',
-    'text': ('PROVED for all bags: best_hyp returns the first maximiser of vis_sc + lm_weight*lm_sc, the key posteriors()/confidence() use. '
-             'BOUNDED: with a history-dependent toy LM every lm_sc equals the LM\'s own sum (+bonus, +eos), best_hyp maximises vis+scale*lm, '
-             'confidence and returned state belong to it, scale 0 reproduces LM-free decoding (grid of C02 x scale x bonus x eos x init state).'),
-    'note': 'Trusted: pyvc; toy LM stands for all history-dependent LMs; real LMWrapper (torch) not verified; LM bookkeeping invariant of the beam loop not proved.',
+    'technique': ('hybrid: deductive proof (own VC generator + z3) of the LM bookkeeping invariant of the decoder loop with the LM as uninterpreted functions, '
+                  'of compute_Plm / update_lm_things and of best_hyp / total_scores; bounded run-time contract of the decoder with a prefix-hash toy LM over a finite grid'),
+    'text': ('PROVED for all inputs and every item-wise deterministic LM: in the beam loop h_prev[p] is the state reached by reading prefix p, lm_preds[p] its '
+             'predictions and Plm[p] the LM\'s own score of prefix p (sum of per-symbol scores + bonus), whatever route the search took; at the return '
+             '(+ end-of-line score when requested); with return_h the state handed on belongs to the arg-max of visual + scale*LM.  PROVED for all bags: best_hyp '
+             'returns the first maximiser of vis_sc + lm_weight*lm_sc, the key posteriors()/confidence() use.  BOUNDED: with a history-dependent toy LM every '
+             'lm_sc equals the LM\'s own sum (+bonus, +eos), best_hyp maximises vis+scale*lm, confidence and returned state belong to it, scale 0 reproduces '
+             'LM-free decoding (grid of C02 x scale x bonus x eos x init state).'),
+    'note': ('Trusted: pyvc; assumed contracts of the LM object (item-wise, deterministic), of multisort.top_k and of the pre-selection; decoder proof for init_h = None; '
+             'build_boh opaque in the decoder proof; toy LM stands for all history-dependent LMs in the bounded tier; real LMWrapper (torch) not verified.'),
 }
 
 CHECKS['C04'] = {
